@@ -150,6 +150,10 @@ func (state *RuntimeState) webauthnFinishRegistration(w http.ResponseWriter, r *
 		return
 	}
 
+	if profile.WebauthnSessionData == nil {
+		http.Error(w, "no registration in progress", http.StatusBadRequest)
+		return
+	}
 	// load the session data
 	credential, err := state.webAuthn.FinishRegistration(profile, *profile.WebauthnSessionData, r)
 	if err != nil {
